@@ -31,8 +31,25 @@ type Case struct {
 	Kind    string // bai csi1 csi2 tabix
 	S       ix.Spec
 	Aux     h.Hex // CSI auxiliary bytes
+	AuxLen  int   // >0: the auxiliary bytes are Aux (or 0xa5 if empty) repeated up to this length
 	Tbx     TbxHdr
 	Queries int
+	Frag    []int // the written index is read back through a reader that returns at most these many bytes per call (cycled)
+}
+
+func (c Case) aux() []byte {
+	if c.AuxLen <= 0 {
+		return c.Aux
+	}
+	pat := []byte(c.Aux)
+	if len(pat) == 0 {
+		pat = []byte{0xa5}
+	}
+	out := make([]byte, c.AuxLen)
+	for i := range out {
+		out[i] = pat[i%len(pat)]
+	}
+	return out
 }
 
 func draw(t *rapid.T) Case {
@@ -43,6 +60,12 @@ func draw(t *rapid.T) Case {
 	}
 	if k == "csi1" || k == "csi2" {
 		c.Aux = rapid.SliceOfN(rapid.Byte(), 0, 12).Draw(t, "aux")
+		if rapid.IntRange(0, 7).Draw(t, "longaux") == 0 {
+			c.AuxLen = rapid.SampledFrom([]int{4079, 4080, 4081, 4096, 5000, 70000}).Draw(t, "auxlen")
+		}
+	}
+	if rapid.IntRange(0, 2).Draw(t, "frag") == 0 {
+		c.Frag = rapid.SliceOfN(rapid.SampledFrom([]int{1, 2, 3, 7, 16, 100, 4096}), 1, 4).Draw(t, "fragv")
 	}
 	if k == "tabix" {
 		c.Tbx = TbxHdr{
@@ -63,9 +86,9 @@ func build(c Case, layout []bgzf.Chunk) (ix.Querier, error) {
 	case "bai":
 		return ix.BuildBAI(c.S, layout)
 	case "csi1":
-		return ix.BuildCSI(c.S, layout, 1, c.Aux)
+		return ix.BuildCSI(c.S, layout, 1, c.aux())
 	case "csi2":
-		return ix.BuildCSI(c.S, layout, 2, c.Aux)
+		return ix.BuildCSI(c.S, layout, 2, c.aux())
 	}
 	t, err := ix.BuildTBX(c.S, layout)
 	if err != nil {
@@ -431,8 +454,8 @@ func checkStructure(c Case, data []byte, layout []bgzf.Chunk, rec *h.Rec) bool {
 		if c.Kind == "csi2" {
 			wantV = 2
 		}
-		if p.version != wantV || int(p.shift) != c.S.MinShift || int(p.depth) != c.S.Depth || !bytes.Equal(p.csiAux, c.Aux) {
-			rec.Failf("CSI header: version %d min_shift %d depth %d aux % x, configured %d/%d/%d/% x", p.version, p.shift, p.depth, p.csiAux, wantV, c.S.MinShift, c.S.Depth, []byte(c.Aux))
+		if p.version != wantV || int(p.shift) != c.S.MinShift || int(p.depth) != c.S.Depth || !bytes.Equal(p.csiAux, c.aux()) {
+			rec.Failf("CSI header: version %d min_shift %d depth %d aux % x, configured %d/%d/%d/% x", p.version, p.shift, p.depth, clip(p.csiAux), wantV, c.S.MinShift, c.S.Depth, clip(c.aux()))
 			return false
 		}
 	}
@@ -540,6 +563,10 @@ func answers(q ix.Querier, qs []ix.Query, rec *h.Rec, what string) [][]bgzf.Chun
 }
 
 func run(c Case, rec *h.Rec) {
+	ix.Fragment = c.Frag
+	defer func() { ix.Fragment = nil }()
+	rec.ClassIf(len(c.Frag) > 0, "read_back_in_fragments")
+	rec.ClassIf(c.AuxLen > 0, "long_csi_aux")
 	layout := c.S.Layout()
 	var q ix.Querier
 	var err error
@@ -925,4 +952,11 @@ func TestProp(t *testing.T) {
 		h.Rapid("built_roundtrip_stats", h.Opt{Quick: 16000, Thorough: 500000}, draw, run),
 		h.Rapid("foreign_shapes", h.Opt{Quick: 8000, Thorough: 300000}, drawF, runF),
 	)
+}
+
+func clip(b []byte) []byte {
+	if len(b) > 24 {
+		return b[:24]
+	}
+	return b
 }
